@@ -69,6 +69,7 @@ class Run:
         s.level = "proof"
         s.extra_cov = {}
         s.bounded_failures = []       # [(name, replay dict)]
+        s.kf_bounded = []             # [(finding, record)] known findings witnessed by a bounded stand-in
 
     # ------------------------------------------------------------ building
     def add(s, *obls):
@@ -102,6 +103,25 @@ class Run:
         for r in fails:
             s.bounded_failures.append((name, r))
         return res
+
+    def bounded_known(s, name, module, func, call, finding_id):
+        """witness run for a failure class that a bounded stand-in skips because it is a recorded known finding: if the class still fails it is
+        reported as KNOWN-FINDING (when the finding is listed as `known`) or as a violation (when it is not listed); if it no longer fails,
+        nothing is printed (a stale finding suppresses nothing)"""
+        name = name if name.startswith(s.pid + "/") else f"{s.pid}/{name}"
+        res = s.native(module, func, [call], first_failure=True)
+        crashed = [r for r in res if r.get("crash")]
+        if crashed:
+            raise RuntimeError(f"witness run {name} crashed: {crashed[0]['crash']} {crashed[0].get('trace', '')}")
+        fails = [r for r in res if r.get("failed")]
+        s.bounded_log.append({"name": name, "level": "B", "bound": f"witness of known finding {finding_id}: {call}", "cases": sum(int(r.get("cases", 1)) for r in res), "failures": len(fails)})
+        if not fails:
+            return
+        listed = [f for f in s.known_findings() if f.get("id") == finding_id and f.get("status") == "known"]
+        if listed:
+            s.kf_bounded.append((listed[0], fails[0]))
+        else:
+            s.bounded_failures.append((name, fails[0]))
 
     # ------------------------------------------------------------ native replay
     def native(s, module, func, calls, first_failure=True, timeout=600):
@@ -255,6 +275,8 @@ class Run:
                 violations.append((solve.static(name, False, "bounded stand-in found a failing case", level="B"), "reproduced", rec))
         # residual obligations of known findings must be proved for the finding to suppress anything
         code = 0
+        for f, rec in s.kf_bounded:
+            kf_hit.append((None, f))
         for o, f in kf_hit:
             print(f"KNOWN-FINDING: property={s.pid} {f['what']}  [obligation {f['obligation']}]")
         for o, status, rec in violations:
@@ -346,6 +368,9 @@ class Run:
             "explanation": "; ".join(s.notes) if s.notes else f"contract-based deductive verification of {s.pid}: every obligation is generated from the current source of /repo",
         }
         cov.update(s.extra_cov)
+        if level == "proof" and kf_hit and len(proved) == n:
+            level = "other"
+            cov["explanation"] = "every deductive obligation is discharged, but a bounded stand-in witnesses a recorded known finding (a genuine, unrepaired defect of /repo) - not a completed proof of the property. " + cov["explanation"]
         if level == "proof" and len(proved) != n:
             level = "other"
             cov["explanation"] = (f"{len(proved)} of {n} obligations discharged; the remainder are listed known findings / violations / undecided "
